@@ -334,7 +334,15 @@ def main():
           'enable': ('environment variable AI_EDGE_QUANTIZER_VERIF=1 (set by '
                      './check); the library is imported from /repo\'s working '
                      'tree via PYTHONPATH, nothing is built'),
-          'baseline_off_cmd': '/verif/tools/baseline.sh /repo',
+          # same form as BASELINE.json's cmd (the <file> placeholder is the
+          # harness's), with the guard variables removed from the environment;
+          # tools/baseline.sh runs it and compares with BASELINE.json itself
+          'baseline_off_cmd': (
+              'cd /repo && env -u AI_EDGE_QUANTIZER_VERIF '
+              '-u AI_EDGE_QUANTIZER_VERIF_LARGE_MODEL_THRESHOLD '
+              '/venv/bin/python -m pytest -ra -q -p no:cacheprovider '
+              '--timeout=900 --continue-on-collection-errors '
+              '--junitxml=<file>'),
           'source_commits': hook_commits,
           'add_only': True,
       },
@@ -357,6 +365,8 @@ def main():
       'checks': checks,
       'not_applicable': na,
       'notes': ('All checks: cd /verif && ./check Cxx --tier quick|thorough. '
+                'Baseline with the guard off, compared against BASELINE.json: '
+                '/verif/tools/baseline.sh /repo. '
                 'VERIF_SEED selects one of 4 precomputed value pools; the '
                 'enumerated structures never depend on it. Known findings: '
                 'known_findings.json. fix: commits in /repo: '
